@@ -29,6 +29,8 @@ def run(ctx, rep):
     rep.rule("R09.8", "an exception of any class raised while serving (incl. SystemExit/KeyboardInterrupt not routed locally) is sent "
                       "back: the replying handler clause catches everything (= R08.1)")
     rep.rule("R09.7", "the StopIteration fast path is paired on both sides")
+    rep.rule("R09.9", "nothing a connection learnt about an exception class is remembered for other connections, except reviewed "
+                      "stateless stand-in/wrapper caches (= R16.3 on the vinegar tables)")
     rep.assume("per-class fidelity of the ~70 built-in exception classes is not decided (class lookup is by name on the builtins module)")
     defaults = ctx.const(K.PROTO, "DEFAULT_CONFIG")
 
@@ -358,3 +360,4 @@ def run(ctx, rep):
 
     K.share(ctx, rep, "c08", lambda o: o.rule == "R08.1" and (o.key.startswith("_dispatch_request: failure of") or
                                                               "configured local propagation" in o.key), "R09.8", floor=4)
+    K.share(ctx, rep, "c16", lambda o: o.rule == "R16.3" and "rpyc.core.vinegar" in o.key, "R09.9", floor=1)
